@@ -361,15 +361,18 @@ def lehmerCore (p : LehmerParams) (n : Nat) (state : Int) : Nat :=
   finishLE (lehmerBytes p ((n + p.bits - 1) / p.bits) state) n
 
 /-- `Lehmer.RandomBits(n, seed=state)`. The `while 8 * len(ba) < n` loop appends `bits/8`
-bytes per iteration, i.e. runs `⌈n / bits⌉` times when `bits > 0`. `mod = 0` raises
-`ZeroDivisionError` in the first iteration. For `bits = 0` and `n ≥ 1` the Python loop does not
-terminate: there is no Python value; the (total) model answers `valueError` there, and every
-theorem and the correspondence assume `0 < bits`. With `seed is None` the same code runs on a
-seed drawn from `os.urandom`. -/
+bytes per iteration, i.e. runs `⌈n / bits⌉` times when `bits > 0`
+(`C20Total.lehmer_while_is_for`). `mod = 0` raises `ZeroDivisionError` in the first iteration
+(whatever `bits` is: `state * a % mod` comes first). For `bits = 0`, `mod ≠ 0` and `n ≥ 1` the
+Python loop does NOT terminate (`C20Total.lehmer_bits_zero_never_terminates`; run:
+`rng.Lehmer(bits=0).RandomBits(1, seed=5)` hangs): there is no Python value; this `Except`-valued
+model answers the PLACEHOLDER `valueError` there — `Rng.lehmerOutcome` (Model/RngTotal.lean) is
+the model with an explicit `diverges`. With `seed is None` the same code runs on a seed drawn
+from `os.urandom` (for `mod = 0` that draw itself raises `ZeroDivisionError`, also for `n = 0`). -/
 def lehmer (p : LehmerParams) (n : Nat) (seed : Int) : Except PyErr Nat :=
   if n = 0 then .ok 0
-  else if p.bits = 0 then .error .valueError
   else if p.mod = 0 then .error .zeroDivision
+  else if p.bits = 0 then .error .valueError
   else .ok (lehmerCore p n seed)
 
 /-! ## SubsetSum -/
